@@ -170,6 +170,13 @@ func main() {
 		name := fmt.Sprintf("lookup%04d", i)
 		progs = append(progs, &detProg{name: name, class: "lookup", src: src, labels: true, path: writeProg("lookup", name, src)})
 	}
+	nSort := e.Pick(25, 200)
+	rsrt := e.Rand("sort")
+	for i := 0; i < nSort; i++ {
+		src := genSortProgram(rsrt)
+		name := fmt.Sprintf("sort%04d", i)
+		progs = append(progs, &detProg{name: name, class: "sort", src: src, labels: true, path: writeProg("sort", name, src)})
+	}
 	nIdent := e.Pick(8, 60)
 	ri := e.Rand("identity")
 	for i := 0; i < nIdent; i++ {
@@ -191,10 +198,7 @@ func main() {
 		b.detProg = &detProg{name: "ending:" + b.kind, class: "ending", src: b.src, path: b.path}
 		progs = append(progs, b.detProg)
 	}
-	var incPaths []string
-	for j := 1; j <= 4; j++ {
-		incPaths = append(incPaths, writeProg("state", "c20_inc"+sfx(j), incFileSource(j)))
-	}
+	incPaths := writeIncFiles("state")
 	mods := stateModules(incPaths)
 	rs := e.Rand("state")
 	var statePs []*stateProg
@@ -542,6 +546,9 @@ func reportNondet(p *detProg, outs []runOut, unstableStore map[int]bool, unstabl
 				ch := id
 				if i := strings.LastIndex(ch, ".g"); i > 0 && p.class == "lookup" {
 					ch = ch[:i]
+				}
+				if i := strings.LastIndex(ch, ".c"); i > 0 && p.class == "sort" {
+					ch = ch[:i] // function.flag, without the container index
 				}
 				key := "nondet:" + p.class + ":" + ch
 				if done[key] {
